@@ -48,7 +48,7 @@ theorem filter_forU {α : Type} (cbOf : α → Cb) (l : List α) (i : Nat) (a : 
 theorem subTimerInv_of_spi {s s' : Stack} (h : spi s' = spi s) (hi : SubTimerInv s) : SubTimerInv s' := by
   have e1 : s'.instances.map (·.subs) = s.instances.map (·.subs) := congrArg (fun p => p.1) h
   have e3 : s'.loop.timers.filter (fun t => isSubExpiry t.cb) = s.loop.timers.filter (fun t => isSubExpiry t.cb) := congrArg (fun p => p.2.2.1) h
-  have e4 : s'.loop.ready.filter (fun t => isSubExpiry t.cb) = s.loop.ready.filter (fun t => isSubExpiry t.cb) := congrArg (fun p => p.2.2.2) h
+  have e4 : s'.loop.ready.filter (fun t => isSubExpiry t.cb) = s.loop.ready.filter (fun t => isSubExpiry t.cb) := congrArg (fun p => p.2.2.2.1) h
   intro i a k
   have h1 : heldU s' i a k = heldU s i a k := by unfold heldU subsAt; rw [e1]
   have h2 : hTU s' i a k = hTU s i a k := by
@@ -130,8 +130,9 @@ theorem hTU_arm (s : Stack) (ttl : Nat) (i i' : Nat) (a a' : Addr) (k k' : SubKe
       rw [if_neg h]
       simp [List.filter_cons, this]
   · rw [if_neg hf, if_neg hf]
+    simp only []
     split
-    · rename_i h; rw [h.1, h.2.1, h.2.2]; simp
+    · rename_i h; rw [h.1, h.2.1, h.2.2]; simp [hTU]
     · rfl
 
 theorem hRU_arm (s : Stack) (ttl : Nat) (cb : Cb) (i' : Nat) (a' : Addr) (k' : SubKey) : hRU (s.armTtl ttl cb).1 i' a' k' = hRU s i' a' k' := by
